@@ -8,7 +8,26 @@ COMMON_TB = [
 ]
 
 PROPS = {
+    "C12": {
+        "level_text": "Lean 4 theorems over an executable model of the patch engine (byte-level parser, hunk application, file system with directories, undo list and revert): exactness on success for every workspace state and operation list (result = in-order fold of the operation semantics; changed files = sorted, de-duplicated named files), parser totality and path confinement, hunk locality; all-or-nothing on failure via the undo invariant (theorem `atomic`, see evidence for whether it is included in this build). Tied to the code by differential correspondence: the same (workspace, patch document) pairs run through rip-workspace in a scratch directory and through the compiled model, full tree (files, bytes, directories), result and error class compared; plus implementation oracles for all-or-nothing and changed-files.",
+        "level_note": "Lean kernel; model hand-written, validated by the correspondence check; std::fs semantics (exists/read/write/create_dir_all/remove_file/rename on files vs directories, trailing-slash spellings) are modelled, not verified; symlinks, I/O errors during rollback and concurrent external writers are outside the model.",
+        "technique": "Lean 4 proof (refinement to in-order fold; undo-list invariant) + differential correspondence check",
+        "design_ref": "§5 C12",
+        "trusted_base": COMMON_TB + [
+            "modelled, not verified: std::fs behaviour on files vs directories (exists, read, write, create_dir_all, remove_file, rename, trailing-slash paths), str::lines/trim, Path::components (Unix)",
+            "not modelled: symlinks, permission/disk errors, the JSON envelope of the apply_patch tool",
+        ],
+        "assumptions": [
+            "no I/O error occurs during rollback other than the ones the model represents (write onto a directory, missing parent)",
+            "the workspace is not modified by another process during apply_patch (C11 provides the lock)",
+        ],
+        "gen": [],
+    },
     "C20": {
+        "level_text": "Lean 4 theorems over an executable model of FrameStore and the TuiState::update fold: frame/output/preview bounds for every frame sequence and capacity, truncation cut on a char boundary, lookup-by-seq sound for every store state and complete on consecutive stores; the model is tied to the code by a differential correspondence run (same frame sequences through rip-tui and the compiled model) plus implementation oracles.",
+        "level_note": "Lean kernel; axioms propext/Quot.sound only; model written by hand and validated by the correspondence check; BTreeMap/VecDeque/String modelled as lists; artifact-id extraction, job/context summaries and rendering not modelled.",
+        "technique": "Lean 4 proof (invariant over the fold) + differential correspondence check",
+        "design_ref": "§5 C20",
         "trusted_base": COMMON_TB + [
             "modelled, not verified: BTreeMap/VecDeque (as association lists / lists), String as UTF-8 byte list, str::is_char_boundary as 'not a continuation byte'",
             "not modelled: artifact-id extraction from JSON payloads, job/context summaries, ratatui rendering, the rip-cli headless renderers (bin-only)",
@@ -20,3 +39,9 @@ PROPS = {
         "gen": [],
     },
 }
+
+# properties not claimed, with the reason (kept current)
+NOT_APPLICABLE = {}
+
+# guarded hook commits in /repo
+HOOK_COMMITS = []
